@@ -1,2 +1,229 @@
-(* Model/Trie.v — executable model; no proofs here. *)
+(* Model/Trie.v — package trie (trie.go).  Executable model; no proofs here.
+
+   A Go [*Trie] is a node holding [map[byte]*Trie].  The model node is the list of
+   its (key, child) pairs kept strictly ascending by key, so that two nodes are
+   equal exactly when the Go maps have the same contents (a map has no order; the
+   only place where Go's iteration order shows is the order in which ForEach
+   reports, which the property treats as a multiset).  The mutation-through-
+   pointers of the Go code becomes "rebuild the spine": after a child was mutated
+   the parent maps the same key to the new child. *)
+From Coq Require Import String.
 From Bio Require Import Base.
+
+Inductive trie : Type := T (children : list (byte * trie)).
+
+Definition children (t : trie) : list (byte * trie) := match t with T l => l end.
+
+(* New() *)
+Definition empty : trie := T [].
+
+(* ---- a Go map with byte keys: ascending association list ----------------- *)
+Section Map.
+  Context {V : Type}.
+
+  (* m[k] (None = the zero value nil) *)
+  Fixpoint mget (k : byte) (l : list (byte * V)) : option V :=
+    match l with
+    | [] => None
+    | (k', v) :: r => if k' =? k then Some v else mget k r
+    end.
+
+  (* m[k] = v *)
+  Fixpoint mset (k : byte) (v : V) (l : list (byte * V)) : list (byte * V) :=
+    match l with
+    | [] => [(k, v)]
+    | (k', v') :: r =>
+      if k <? k' then (k, v) :: l
+      else if k =? k' then (k, v) :: r
+      else (k', v') :: mset k v r
+    end.
+
+  (* delete(m, k) *)
+  Fixpoint mdel (k : byte) (l : list (byte * V)) : list (byte * V) :=
+    match l with
+    | [] => []
+    | (k', v') :: r => if k' =? k then r else (k', v') :: mdel k r
+    end.
+End Map.
+
+Definition is_nil {A} (l : list A) : bool := match l with [] => true | _ => false end.
+
+(* ---- Add ----------------------------------------------------------------- *)
+(* for len(b) > 0 { next := cur.m[b[0]]; if next == nil { next = New(); cur.m[b[0]] = next }
+                    cur = next; b = b[1:] } *)
+Fixpoint add (b : bytes) (t : trie) : trie :=
+  match b with
+  | [] => t
+  | k :: b' =>
+    match t with
+    | T l =>
+      let next := match mget k l with Some c => c | None => empty end in
+      T (mset k (add b' next) l)
+    end
+  end.
+
+(* ---- Has ----------------------------------------------------------------- *)
+(* for len(b) > 0 { next := cur.m[b[0]]; if next == nil { return false }; cur = next; b = b[1:] }
+   return true *)
+Fixpoint has (b : bytes) (t : trie) : bool :=
+  match b with
+  | [] => true
+  | k :: b' =>
+    match mget k (children t) with
+    | None => false
+    | Some c => has b' c
+    end
+  end.
+
+(* ---- Delete -------------------------------------------------------------- *)
+(* First loop: stack[i] = cur; cur = cur.m[b[i]]; if cur == nil { return false }.
+   The model stack is deepest-first and carries b[i] next to stack[i]. *)
+Fixpoint build_stack (cur : trie) (b : bytes) (acc : list (trie * byte))
+  : option (list (trie * byte)) :=
+  match b with
+  | [] => Some acc
+  | k :: b' =>
+    match mget k (children cur) with
+    | None => None
+    | Some c => build_stack c b' ((cur, k) :: acc)
+    end
+  end.
+
+(* The loop has stopped at a node that keeps other children: its ancestors see the
+   mutated node through their pointers. *)
+Fixpoint rebuild (n : trie) (st : list (trie * byte)) : trie :=
+  match st with
+  | [] => n
+  | (T l, k) :: rest => rebuild (T (mset k n l)) rest
+  end.
+
+(* Second loop: for i := len(stack)-1; i >= 0; i-- { delete(stack[i].m, b[i]);
+                 if len(stack[i].m) > 0 { break } }
+   [root] is what the trie is when the stack is empty (Delete of the empty
+   sequence removes nothing). *)
+Fixpoint prune (st : list (trie * byte)) (root : trie) : trie :=
+  match st with
+  | [] => root
+  | (T l, k) :: rest =>
+    let l' := mdel k l in
+    if is_nil l' && negb (is_nil rest)
+    then prune rest root                  (* childless, not the root: go on upwards *)
+    else rebuild (T l') rest              (* break, or i reached 0 *)
+  end.
+
+Definition delete (b : bytes) (t : trie) : trie * bool :=
+  match build_stack t b [] with
+  | None => (t, false)
+  | Some st => (prune st t, true)
+  end.
+
+(* ---- ForEach ------------------------------------------------------------- *)
+(* The explicit stack of forEachStep{t, keys, i}: keys are the node's keys in the
+   model's (ascending) order, so a step is the node and the index i.  [rcur] is
+   the current sequence reversed; [out] the reports so far, most recent first.
+   The callback is "continue until the p-th report" (p = 0: never stop).
+   One unit of fuel per iteration of the Go [for] loop. *)
+Fixpoint fe_loop (fuel : nat) (p : nat) (stack : list (trie * nat)) (rcur : bytes)
+         (out : list bytes) : outcome (list bytes) :=
+  match fuel with
+  | O => Panic
+  | S fuel' =>
+    match stack with
+    | [] => Panic                                              (* unreachable *)
+    | (T l, i) :: rest =>
+      (* if len(step.t.m) == 0 { if len(cur) > 0 && !f(cur) { break } } *)
+      let report := is_nil l && negb (is_nil rcur) in
+      let out' := if report then rev rcur :: out else out in
+      if report && Nat.eqb (length out') p then Ok (rev out')
+      else if Nat.eqb i (length l) then
+        (* finished with this branch *)
+        match rest with
+        | [] => Ok (rev out')
+        | _ => fe_loop fuel' p rest (tl rcur) out'
+        end
+      else
+        (* handle next child *)
+        match nth_error l i with
+        | Some (key, child) => fe_loop fuel' p ((child, O) :: (T l, S i) :: rest) (key :: rcur) out'
+        | None => Panic                                        (* unreachable *)
+        end
+    end
+  end.
+
+(* number of nodes *)
+Fixpoint size (t : trie) : nat :=
+  match t with T l => S (fold_right (fun kc n => (size (snd kc) + n)%nat) O l) end.
+
+(* every node is on top of the stack once per child plus once: 2*size - 1 iterations *)
+Definition for_each_until (p : nat) (t : trie) : outcome (list bytes) :=
+  fe_loop (2 * size t) p [(t, O)] [] [].
+
+Definition for_each (t : trie) : outcome (list bytes) := for_each_until O t.
+
+(* ---- MarshalJSON / UnmarshalJSON ----------------------------------------- *)
+(* The object tree that encoding/json is handed / hands back; the JSON text
+   (quoting, key order in the text, whitespace) is encoding/json's. *)
+Inductive jvalue : Type := JObj (fields : list (bytes * jvalue)).
+
+Definition m_name : bytes := [109].     (* the field tag `json:"m"` *)
+
+(* marshalTrie{t.m}: a map[byte]*Trie is an object whose keys are the decimal
+   texts of the byte keys and whose values are the children's MarshalJSON. *)
+Fixpoint to_json (t : trie) : jvalue :=
+  match t with
+  | T l => JObj [(m_name, JObj (map (fun kc => (itoa (Z.of_N (fst kc)), to_json (snd kc))) l))]
+  end.
+
+(* a map key of type uint8: strconv.ParseUint(key, 10, 8) *)
+Definition parse_key (s : bytes) : option byte :=
+  match parse_digits s with
+  | Some z => if (z <? 256)%Z then Some (Z.to_N z) else None
+  | None => None
+  end.
+
+(* Unmarshal into marshalTrie{M: empty map}: each member of "m" allocates a fresh
+   Trie, unmarshals the value into it ([dec]) and stores it under the parsed key
+   (a repeated key overwrites). *)
+Section Fields.
+  Variable dec : jvalue -> option trie.
+  Fixpoint of_fields (kvs : list (bytes * jvalue)) (acc : list (byte * trie))
+    : option (list (byte * trie)) :=
+    match kvs with
+    | [] => Some acc
+    | (ks, v) :: r =>
+      match parse_key ks, dec v with
+      | Some k, Some c => of_fields r (mset k c acc)
+      | _, _ => None
+      end
+    end.
+End Fields.
+
+(* Objects of any other shape than MarshalJSON's are outside the modelled
+   domain: None. *)
+Fixpoint of_json (j : jvalue) : option trie :=
+  match j with
+  | JObj [(name, JObj kvs)] =>
+    if beqb name m_name then
+      match of_fields of_json kvs [] with Some l => Some (T l) | None => None end
+    else None
+  | _ => None
+  end.
+
+(* ---- histories ------------------------------------------------------------ *)
+Inductive op : Type := OAdd (b : bytes) | ODel (b : bytes).
+
+(* the new trie and what the call returned (Add returns nothing) *)
+Definition apply_op (o : op) (t : trie) : trie * option bool :=
+  match o with
+  | OAdd b => (add b t, None)
+  | ODel b => let (t', r) := delete b t in (t', Some r)
+  end.
+
+Fixpoint run (ops : list op) (t : trie) : trie * list (option bool) :=
+  match ops with
+  | [] => (t, [])
+  | o :: r =>
+    let (t1, res) := apply_op o t in
+    let (t2, rs) := run r t1 in
+    (t2, res :: rs)
+  end.
